@@ -27,9 +27,14 @@ Sent(l) == SentFrom(l, 1)
 HasClass(l, c) == \E i \in 1..Len(l) : l[i].n = c
 Count(l, c) == Cardinality({i \in 1..Len(l) : l[i].n = c})
 
-\* the declared length after the list was applied: the last valid Content-Length, else the constructor's
-DeclaredLen(l, ctor) ==
-    LET I == {i \in 1..Len(l) : l[i].n = "cl"} IN
+\* routes "<r>+wd": with_data replaces the body (and its declared length) after the first half of the list
+\* has been given; everything else about the headers is unaffected by it
+SplitAt(c) == IF c.route \in {"ctor+wd", "add+wd", "with+wd"} THEN (Len(c.list) + 1) \div 2 ELSE 0
+
+\* the declared length after the list was applied: the last valid Content-Length given after the body was
+\* set for the last time, else that body's own length
+DeclaredLen(l, ctor, from) ==
+    LET I == {i \in (from + 1)..Len(l) : l[i].n = "cl"} IN
     \* (concretiser convention: the valid Content-Length with value id k is the number 11 * k)
     IF I = {} THEN ctor ELSE 11 * l[CHOOSE i \in I : \A j \in I : i >= j].v
 
@@ -40,6 +45,6 @@ Guards(o) ==
        <<o.ndate = (IF HasClass(o.case.list, "date") THEN Count(o.case.list, "date") ELSE 1), "DateCount">>,
        <<(~HasClass(o.case.list, "date")) => o.datevalid, "DateInvalid">>,
        <<o.nserver = (IF HasClass(o.case.list, "server") THEN Count(o.case.list, "server") ELSE 1), "ServerCount">>,
-       <<o.declared = DeclaredLen(o.case.list, o.case.ctorlen), "DeclaredLength">>,
+       <<o.declared = DeclaredLen(o.case.list, o.case.ctorlen, SplitAt(o.case)), "DeclaredLength">>,
        <<o.nprotected = 0, "ProtectedHeaderSent">> >>
 =============================================================================
